@@ -1,5 +1,6 @@
 import SJ.Drv.C18
 import SJ.Drv.C01
+import SJ.Drv.C10
 /-!
 `sjdriver` — reads case lines `op args… => impl-observation` on stdin, runs the Lean model and the
 executable specification on each, prints
@@ -10,21 +11,27 @@ and finally `SUMMARY total=… modeldiff=… specfail=… bad=…`.
 open SJ SJ.Drv
 
 def allHandlers : List (String × Handler) :=
-  C18.handlers ++ C01.handlers
+  C18.handlers ++ C01.handlers ++ C10.handlers
 
 def findHandler (op : String) : Option Handler := (allHandlers.find? (·.1 == op)).map (·.2)
+
+/-- Only the observables a property talks about are compared: `project prop op obs` canonicalises
+    an observation (the implementation's and the model's alike) for the property being checked. -/
+def project (prop op obs : String) : String :=
+  if op == "pv" || op == "pi" then Mach.projectOutcome prop obs else obs
 
 structure Cnt where
   total : Nat := 0
   mdiff : Nat := 0
   sfail : Nat := 0
   bad : Nat := 0
+  other : Nat := 0
 
-partial def loop (h : IO.FS.Stream) (c : Cnt) (lineno : Nat) : IO Cnt := do
+partial def loop (prop : String) (h : IO.FS.Stream) (c : Cnt) (lineno : Nat) : IO Cnt := do
   let line ← h.getLine
   if line.isEmpty then return c
   let line := line.trimAscii.toString
-  if line.isEmpty then loop h c (lineno + 1) else
+  if line.isEmpty then loop prop h c (lineno + 1) else
   match line.splitOn " => " with
   | [lhs, impl] =>
     match lhs.splitOn " " with
@@ -32,7 +39,7 @@ partial def loop (h : IO.FS.Stream) (c : Cnt) (lineno : Nat) : IO Cnt := do
       match findHandler op with
       | none =>
         IO.println s!"B {lineno} unknown-op :: {line}"
-        loop h { c with total := c.total + 1, bad := c.bad + 1 } (lineno + 1)
+        loop prop h { c with total := c.total + 1, bad := c.bad + 1 } (lineno + 1)
       | some f =>
         let o := f args impl
         let mut c := { c with total := c.total + 1 }
@@ -40,22 +47,27 @@ partial def loop (h : IO.FS.Stream) (c : Cnt) (lineno : Nat) : IO Cnt := do
           c := { c with bad := c.bad + 1 }
           if c.bad ≤ 50 then IO.println s!"B {lineno} {o.model} :: {line}"
         else
-          if o.model != impl then
+          if project prop op o.model != project prop op impl then
             c := { c with mdiff := c.mdiff + 1 }
             if c.mdiff ≤ 200 then IO.println s!"D {lineno} model={o.model} :: {line}"
           match o.spec with
           | some msg =>
-            c := { c with sfail := c.sfail + 1 }
-            if c.sfail ≤ 200 then IO.println s!"S {lineno} {msg} :: {line}"
+            -- a message `Cxx …` belongs to property Cxx; other properties' verdicts are only counted
+            let foreign := msg.startsWith "C" && (msg.drop 3).startsWith " " && !msg.startsWith (prop ++ " ")
+            if foreign then c := { c with other := c.other + 1 }
+            else
+              c := { c with sfail := c.sfail + 1 }
+              if c.sfail ≤ 200 then IO.println s!"S {lineno} {msg} :: {line}"
           | none => pure ()
-        loop h c (lineno + 1)
-    | [] => loop h c (lineno + 1)
+        loop prop h c (lineno + 1)
+    | [] => loop prop h c (lineno + 1)
   | _ =>
     IO.println s!"B {lineno} malformed :: {line}"
-    loop h { c with total := c.total + 1, bad := c.bad + 1 } (lineno + 1)
+    loop prop h { c with total := c.total + 1, bad := c.bad + 1 } (lineno + 1)
 
-def main : IO UInt32 := do
+def main (args : List String) : IO UInt32 := do
   let stdin ← IO.getStdin
-  let c ← loop stdin {} 1
-  IO.println s!"SUMMARY total={c.total} modeldiff={c.mdiff} specfail={c.sfail} bad={c.bad}"
+  let prop := args.headD ""
+  let c ← loop prop stdin {} 1
+  IO.println s!"SUMMARY total={c.total} modeldiff={c.mdiff} specfail={c.sfail} bad={c.bad} otherspec={c.other}"
   return 0
